@@ -256,6 +256,32 @@ def fam_bind(maxlen):
     return hs
 
 
+def fam_sync(maxlen):
+    """bind blocks with 1..2 `yield from server.sync()` among <= maxlen calls, the exception raised at every point
+    (before call k, hence before / between / after the syncs; after the last call; not at all), then calls outside
+    the block; plus syncs outside any block"""
+    cmds = [op('synth', **{'def': 'd'}, tk='obj', t=1, act='addToHead', a=[ts('freq'), ti(440)]),
+            op('set', h=4, a=[ts('amp'), tf(4)]), op('free', h=4),
+            op('buffer', n=[8, 1], cm='func'), op('b_free', h=3, cm='none')]
+    al = cmds + [op('sync')]
+    after = [op('run', h=4, n=[1]), op('cbus', n=[1])]
+    hs = []
+    for ln in range(1, maxlen + 1):
+        for body in itertools.product(al, repeat=ln):
+            k = sum(1 for o in body if o['op'] == 'sync')
+            if not 1 <= k <= 2:
+                continue
+            for r in range(-1, ln + 1):
+                hs.append(PRE_NODE + [op('bind', body=list(body), raise_at=r)] + after)
+    hs.append(PRE_NODE + [op('sync'), cmds[1], op('sync'), op('sync'), op('bind', body=[cmds[1], op('sync'), cmds[2]], raise_at=-1),
+                          op('sync'), op('bind', body=[op('sync')], raise_at=-1), op('bind', body=[op('sync'), cmds[1]], raise_at=2)])
+    return hs
+
+
+def has_sync(h):
+    return any(o['op'] == 'sync' or any(i['op'] == 'sync' for i in o.get('body', [])) for o in h)
+
+
 def random_history(rnd, n):
     """a random valid program over everything; tracks handle kinds only to build well-formed calls"""
     kinds = []          # per handle: 'group' 'synth' 'buf' 'bufs' 'cbus' 'abus' 'stale' (after free_all) 'dead'
@@ -271,6 +297,8 @@ def random_history(rnd, n):
 
     def one(inbind):
         x = rnd.random()
+        if rnd.random() < (0.2 if inbind else 0.03):
+            return op('sync')
         tgt = pick('group', 'synth')
         tk = rnd.choice(['obj', 'obj', 'none', 'server']) if tgt else rnd.choice(['none', 'server'])
         if x < 0.12 or not kinds:
@@ -427,7 +455,7 @@ def run(ctx):
     # 1. design: the expectations of the spec are well-typed per the command table, mention only known ids, and
     #    bind() is all-or-nothing, for every history of the bounded model
     acts = ('NewSynth', 'Replace', 'NewGroup', 'NodeCmd', 'FreeNode', 'NewBuffer', 'Consecutive', 'FreeBuffer',
-            'FreeAllBuffers', 'BufferCmd', 'NewBus', 'FreeBus', 'BusCmd', 'BindEnter', 'BindExit', 'BindRaise')
+            'FreeAllBuffers', 'BufferCmd', 'NewBus', 'FreeBus', 'BusCmd', 'Sync', 'BindEnter', 'BindExit', 'BindRaise')
     # vacuity guard: TLC's -coverage runs out of memory on this module, so a small run prints every action it takes
     r = ctx.model_check('ServerCmdModel', 'ServerCmdModel_cover.cfg', coverage=False, workers=1, timeout=600,
                         label='vacuity guard (2 calls, actions printed)')
@@ -440,6 +468,9 @@ def run(ctx):
     r = ctx.model_check('ServerCmdModel', 'ServerCmdModel%s.cfg' % ('_thorough' if thorough else ''), coverage=False,
                         workers=8, timeout=1500)
     ctx.expect_ok(r, 'ServerCmdModel')
+    r = ctx.model_check('ServerCmdModel', 'ServerCmdModel_bind.cfg', coverage=False, workers=8, timeout=1500,
+                        label='bind blocks with syncs and raise points, 7 calls deep, few kinds of call')
+    ctx.expect_ok(r, 'ServerCmdModel bind/sync')
     if thorough:
         r = ctx.model_check('ServerCmdModel', 'ServerCmdModel_deep.cfg', coverage=False, workers=8, timeout=1500,
                             label='4 calls, narrow choice sets')
@@ -449,7 +480,7 @@ def run(ctx):
     fams = [('creation', fam_creation()), ('node-seq', fam_node_sequences(2)),
             ('buffers', fam_buffers(5 if thorough else 4)), ('buffer-cmds', fam_buffer_commands()),
             ('buses', fam_buses(5 if thorough else 4)), ('bus-cmds', fam_bus_commands()),
-            ('bind', fam_bind(3 if thorough else 2))]
+            ('bind', fam_bind(3 if thorough else 2)), ('bind-sync', fam_sync(4 if thorough else 3))]
     cases = []
     famcount = {}
     for name, hs in fams:
@@ -467,7 +498,7 @@ def run(ctx):
     traces = run_cases(ctx, cases, 'nrt')
     # RT mode: same objects on the UDP interface (send captured, nothing leaves the process)
     step = 1 if thorough else 4
-    rt_cases = cases[::step]
+    rt_cases = [c for k, c in enumerate(cases) if k % step == 0 or has_sync(c['hist'])]     # sync only acts in RT
     rt_traces = run_cases(ctx, rt_cases, 'rt')
     judge(ctx, [(cases, traces, 'nrt'), (rt_cases, rt_traces, 'rt')])
     ctx.cov['evaluations'] += sum(len(t['ev']) for t in traces) + sum(len(t['ev']) for t in rt_traces)
@@ -482,8 +513,9 @@ def run(ctx):
     ctx.cov['rule'] = ('families: every constructor x add-action name x target kind x argument shape (scalar/list/dict/bus/'
                        'buffer/node/map-string); all pairs of node commands; all sequences of %d buffer life-cycle calls (alloc, '
                        'consecutive, free, double free, free_all, use) and of %d bus calls; every buffer/bus command incl. after '
-                       'free; bind bodies of <= %d calls x every raise point; %d seeded random programs (8-40 calls, bind blocks '
-                       'with random raise points); client ids 0 and 1, node-id wrap; NRT all, RT every %d-th. non-trivial = '
+                       'free; bind bodies of <= %d calls x every raise point; bind bodies with 1-2 sync() x every raise point (RT with a '
+                       'stub /synced reply, and NRT); %d seeded random programs (8-40 calls, bind blocks with syncs and '
+                       'random raise points); client ids 0 and 1, node-id wrap; NRT all, RT every %d-th. non-trivial = '
                        'addresses an object created in the history, frees something, or has a non-empty bind block'
                        % (5 if thorough else 4, 5 if thorough else 4, 3 if thorough else 2, nrand, step))
     ctx.cov['exhaustive'] = True
@@ -492,7 +524,8 @@ def run(ctx):
         'repeated Node.free() re-sends /n_free for the same (client-allocated) id: not counted against "exactly once", which is '
         'read per free call; node ids are never returned to an allocator',
         'float arguments are multiples of 1/8 (exact in float32); strings are ASCII',
-        'no server is running: commands that need a reply are checked in their request form only; sync() inside bind() is not exercised',
+        'no server is running: commands that need a reply are checked in their request form only; /sync is answered by a stub '
+        '(a /synced datagram handed to the OSC interface request handler as coming from the server address)',
         'nested lists inside list values, seti/get/getn/query callbacks, Volume/Recorder/ServerStatus helpers are not covered',
     ]
 
